@@ -8,7 +8,7 @@ namespace ratio
   class disj_flaw final : public flaw
   {
   public:
-    disj_flaw(solver &slv, std::vector<resolver *> causes, std::vector<smt::lit> lits);
+    disj_flaw(solver &slv, std::vector<resolver *> causes, std::vector<smt::lit> lits, const smt::lit &disj);
     disj_flaw(const disj_flaw &orig) = delete;
 
     std::string get_data() const noexcept override;
@@ -30,5 +30,6 @@ namespace ratio
 
   private:
     std::vector<smt::lit> lits; // the disjunction..
+    const smt::lit disj;        // the literal of the disjunction itself (false when the disjunction is used negatively)..
   };
 } // namespace ratio
